@@ -350,13 +350,16 @@ def _grid_register(tier, rng):
     """all sequences of length <= 3 over {create station S_k, create orbit-attached frame O_k (QSW), create orbit frame (inertial axes), orbit frame of an orbit given in the
     frame created just before, station on a user-defined body-fixed frame five links away from ITRF}, each interleaved with the full matrix of conversions among the 10
     built-in frames and that user frame at 2 dates"""
-    kinds = ["station", "orbit_qsw", "orbit_inertial", "orbit_given_in_the_previous_new_frame", "station_on_a_user_body_fixed_frame"]
+    kinds = ["station", "orbit_qsw", "orbit_inertial", "orbit_given_in_the_previous_new_frame", "station_on_a_user_body_fixed_frame", "orbit_qsw_with_a_moon_centred_parent"]
     for L in (1, 2, 3):
-        for seq in itertools.product(range(5), repeat=L):
+        for seq in itertools.product(range(6), repeat=L):
+            if L == 3 and len(set(seq)) == 1:
+                continue
             yield {"len": L, **{f"k{i}": seq[i] for i in range(L)}}
 
 
 _USER = []
+_MOONF = []
 
 
 def _user_frame():
@@ -415,6 +418,14 @@ def _(c):
         elif kind == 4:
             fr = create_station(nm, (0.67 + i, 23.47, 0.0), parent_frame=_user_frame())
             ok_name = ok_name and hasattr(orient.Orientation, f"{nm}_to_{_user_frame().orientation.name}")
+        elif kind == 5:
+            # a local orbital frame whose parent is a body-centred frame: the parent frame's name (Moon) is not its orientation's (EME2000)
+            from beyond.env import solarsystem
+            if not _MOONF:
+                _MOONF.append(solarsystem.get_frame("Moon"))
+            ref = StateVector([1.9e6, 2.0e5, 3.0e5, -100.0, 1.5e3, 400.0], dates[0], "cartesian", _MOONF[0])
+            fr = orbit2frame(nm, ref, orientation="QSW", parent=_MOONF[0])
+            ok_name = ok_name and hasattr(orient.Orientation, f"{nm}_to_EME2000")
         else:
             xi = [v * (1 + 0.01 * i) for v in x]
             ref = StateVector(xi, dates[0], "cartesian", "EME2000")
